@@ -21,7 +21,29 @@ def _clear(an):
 
 
 def feasible_blocks(an, f, env=None):
-    """blocks reachable from the entry along edges not contradicted by the (pinned) value ranges."""
+    """blocks reachable from the entry along edges not contradicted by the (pinned) value ranges.
+    Values with several definitions (booleans summarising checks) are joined over the definitions in
+    feasible blocks only: the block set is computed as a decreasing fixpoint starting from all blocks."""
+    if not an._has_bool_switches(f):
+        return _feasible_once(an, f, env)
+    prev = None
+    saved = an.__dict__.get("feasible")
+    try:
+        for _ in range(5):
+            cur = _feasible_once(an, f, env)
+            if cur == prev:
+                break
+            prev = cur
+            an.feasible = dict(saved or {})
+            an.feasible[f.key] = cur
+            _clear(an)
+    finally:
+        an.feasible = saved or {}
+        _clear(an)
+    return prev
+
+
+def _feasible_once(an, f, env=None):
     seen = {0}
     dq = deque([0])
     while dq:
